@@ -21,7 +21,7 @@ PID = "C04"
 RULE = (
     "case = (builder name, base network spec whose explicit edge IDs include 0, decreasing, gapped, digit-string, "
     "numpy-int or integer-valued-float IDs, seed) + 1-10 ops mixing automatic additions, explicit new IDs, explicit "
-    "existing IDs, all bulk formats, add_node_to_edge and removals; the builder (constructor input type, from_* "
+    "existing IDs and IDs at / just above the counter (int, float, numpy int), all bulk formats, add_node_to_edge, removals and calls that raise half-way (None members), followed by 0-4 plain automatic additions; the builder (constructor input type, from_* "
     "converter, read_* through a temp file, generator, copy/pickle/deepcopy, relabelling, dual, <<, subhypergraph copy, "
     "cleanup, ...) produces the network the additions are applied to. Around every addition: every old ID keeps its "
     "members and attributes, the number of new IDs is what the reference model adds, an existing explicit ID warns and "
